@@ -20,9 +20,39 @@ class TeeFile(io.RawIOBase):
 
     def write(self, b):
         b = bytes(b)
-        self.calls.append((len(self.buf), len(b)))
-        self.buf += b
+        pos = len(self.buf) if self.pos is None else self.pos
+        self.calls.append((pos, len(b)))
+        if pos >= len(self.buf):
+            self.buf += b"\x00" * (pos - len(self.buf)) + b
+        else:
+            self.buf[pos : pos + len(b)] = b
+        if self.pos is not None:
+            self.pos = pos + len(b)
         return len(b)
+
+    # A real file can be repositioned and cut: a writer that tries to 'repair' its output after a failure must be able
+    # to do so here too (nothing in the unchanged library calls these; every use is counted).
+    pos = None  # None = append mode (position follows the end)
+    seeks = 0
+    truncates = 0
+
+    def seekable(self):
+        return True
+
+    def tell(self):
+        return len(self.buf) if self.pos is None else self.pos
+
+    def seek(self, offset, whence=0):
+        self.seeks += 1
+        base = {0: 0, 1: self.tell(), 2: len(self.buf)}[whence]
+        self.pos = max(0, base + offset)
+        return self.pos
+
+    def truncate(self, size=None):
+        self.truncates += 1
+        size = self.tell() if size is None else size
+        del self.buf[size:]
+        return size
 
     def flush(self):
         self.flushes += 1
@@ -61,11 +91,10 @@ class FaultFile(TeeFile):
         if idx == self.k and not self.fired:
             self.fired = True
             if self.mode == "raise":
-                self.calls.append((len(self.buf), 0))
+                self.calls.append((self.tell(), 0))
                 raise InjectedFault("injected write failure at call %d" % idx)
             n = (len(b) // 2) if self.cut is None else min(self.cut, max(len(b) - 1, 0))
-            self.calls.append((len(self.buf), n))
-            self.buf += b[:n]
+            TeeFile.write(self, b[:n])
             if self.mode == "short":
                 raise InjectedFault("injected short write at call %d (%d of %d bytes)" % (idx, n, len(b)))
             self.dead = True
